@@ -47,6 +47,8 @@ EXPR = {
     "v_nest": '["x", "x"]', "v_heap": "[(1, [2]), (3, [4])]",
     "t_empty": "()", "t_1": "(1,)", "t_2": '(1, "x")', "t_vec": "([1],)", "t_heap": "((1, [2]), [3])",
     "m_empty": "{}", "m_1": "{1: 2}", "m_self": "mk_mself()", "m_heap": "{1: (2, [3])}",
+    "r_0big": "(0..9223372036854775808)", "r_nbig2": "(-9223372036854775808..2)", "r_m2big": "(-2..9223372036854775808)",
+    "r_bignbig": "(9223372036854775808..-9223372036854775808)",
     "r_03": "(0..3)", "r_30": "(3..0)", "r_m21": "(-2..-1)", "r_11": "(1..1)",
     "c_A": "A", "c_String": "String", "c_Fiber": "Fiber", "c_Error": "Error", "c_Vec": "Vec", "c_Type": "Type",
     "i_A": "A.new()", "i_err": 'Error.new("a")', "i_stop": "StopIter.new()", "i_mapiter": "[1, 2].iter().map(f1)",
@@ -58,7 +60,8 @@ EXPR = {
     "nil": "nil", "true": "true", "false": "false", "mod": "m1",
 }
 
-FORMS = ["invoke0", "invoke1", "invoke2", "invoke3", "getprop", "setprop", "call", "binop", "unop", "index", "setindex", "range", "misc", "repeat"]
+FORMS = ["invoke0", "invoke1", "invoke2", "invoke3", "getprop", "setprop", "call", "binop", "unop", "index", "setindex", "range", "misc", "repeat",
+         "alias", "iterate"]
 
 
 def q(s):
@@ -97,19 +100,34 @@ def op_expr(c):
 def case_src(c):
     """one block: prints `ok` or the error class and whether the context is the predicted text"""
     ops = c["ops"]
-    decl = " ".join("var o%d = %s;" % (i, EXPR[x]) for i, x in enumerate(ops))
+    if c.get("alias"):
+        first, parts = {}, []
+        for i, x in enumerate(ops):
+            if x in first:
+                parts.append("var o%d = o%d;" % (i, first[x]))        # the same object again
+            else:
+                first[x] = i
+                parts.append("var o%d = %s;" % (i, EXPR[x]))
+        decl = " ".join(parts)
+    else:
+        decl = " ".join("var o%d = %s;" % (i, EXPR[x]) for i, x in enumerate(ops))
+    # a REJECTED operation leaves the variables holding its operands untouched (the error object must not land in a live slot)
+    saved = " ".join("var s%d = String.from(o%d);" % (i, i) for i in range(len(ops)))
+    intact = " ".join("if String.from(o%d) != s%d { print(\"#operand %d changed\"); }" % (i, i, i) for i in range(len(ops)))
     r = c["r"]
     if r["c"] == "err":
         pieces = []
         for p in r["msg"]:
             pieces.append("String.from(o%d)" % p[1] if isinstance(p, list) else q(str(p)))
         want = " + ".join(pieces) if pieces else '""'
-        handler = "print(\"#${type(e)}\"); if e.context == %s { print(\"#ctx ok\"); } else { print(\"#${e.context}\"); }" % want
+        handler = "print(\"#${type(e)}\"); if e.context == %s { print(\"#ctx ok\"); } else { print(\"#${e.context}\"); } %s" % (want, intact)
     else:
-        handler = "print(\"#${type(e)}\"); print(\"#${e.context}\");"
+        handler = "print(\"#${type(e)}\"); print(\"#${e.context}\"); %s" % intact
     f = c["f"]
     if f == "forin":
         body = "for z in o0 { break; } print(\"#ok\"); print(\"#-\");"
+    elif f == "iternext":
+        body = "var it = o0.iter(); it.next(); it.next(); it.next(); print(\"#ok\"); print(\"#-\");"
     elif f == "derive":
         body = "#[derive(o0)] class Z {} print(\"ok\");"
     elif f == "throw":
@@ -122,7 +140,7 @@ def case_src(c):
     if f == "derive":
         # a class declaration is only allowed at top level: operands become globals of a fresh name
         return None
-    return "{ %s try { %s } catch e { %s } }" % (decl, body, handler)
+    return "{ %s %s try { %s } catch e { %s } }" % (decl, saved, body, handler)
 
 
 def derive_src(c, k):
@@ -156,6 +174,9 @@ def tlc_cases(rep, form, tier):
     if form == "repeat":
         for c in cases:
             c["repeat"] = True
+    if form == "alias":
+        for c in cases:
+            c["alias"] = True
     log("[c02] Natives.tla %s: %d cases (%.0fs)" % (form, len(cases), res.wall))
     return cases, res.distinct
 
